@@ -27,16 +27,16 @@ import (
 // sequential results. A race report or a differing result is a violation.
 
 type c14Scenario struct {
-	ID    int        `json:"id"`
-	Kind  string     `json:"kind"` // "ops" | "exec"
-	Ops   [][]string `json:"ops,omitempty"`
-	Src   string     `json:"src,omitempty"`
-	Data  absMap     `json:"data,omitempty"`
+	ID    int               `json:"id"`
+	Kind  string            `json:"kind"` // "ops" | "exec"
+	Ops   [][]string        `json:"ops,omitempty"`
+	Src   string            `json:"src,omitempty"`
+	Data  absMap            `json:"data,omitempty"`
 	Parts map[string]string `json:"parts,omitempty"`
-	G     int        `json:"g,omitempty"`     // goroutines
-	Topo  string     `json:"topo,omitempty"`  // "child" | "root"
-	Cache bool       `json:"cache"`
-	Iters int        `json:"iters"`
+	G     int               `json:"g,omitempty"`    // goroutines
+	Topo  string            `json:"topo,omitempty"` // "child" | "root"
+	Cache bool              `json:"cache"`
+	Iters int               `json:"iters"`
 }
 
 type c14Result struct {
